@@ -15,6 +15,13 @@ the clipped last block, and `fxMap` = the pole map of `ac2mp`
   `C17_last_block_bias` — which columns enter which block, for every `nb`, `N`.
 * `C17_fxMap_is_ac2mp`, `C17_fxMap_fnOf_xiOf` — `fxMap` is the map `ac2mp` computes (`FreeVib.lamC`,
   `fnR`, `xiR`; `Realise.fnOf`, `xiOf` on the records), damping in percent.
+* `C17_eig_first_order_exists`, `C17_first_order_ident_exists` — the first-order identification that
+  `FirstOrderIdent` assumed EXISTS for every direction, from value-level contracts and simplicity of the
+  eigenvalue; `C17_fncov_of_factor_exact`, `C17_fncov_of_build_hank_exact` — the composed statement with no
+  first-order object assumed.
+* non-vacuity: `ExTab` (table on order-2 data; `FirstOrderIdent` at order 2 for arbitrary directions),
+  `ExReal` (all hypotheses of the composed statement jointly, over `ℝ`/`ℂ`, factor built by `covFactor`),
+  `ExBlocks`.
 -/
 namespace PV.C17
 open PV PV.Mat PV.Unc Finset
